@@ -21,7 +21,8 @@ fn models(tier: Tier) -> Vec<Model> {
             v.extend(gen::m3(0).into_iter().step_by(31));
             v.extend(gen::m4(0).into_iter().step_by(9));
             v.extend(gen::m5(0).into_iter().step_by(5));
-            v.extend(gen::m7(0).into_iter().step_by(5));
+            v.extend(gen::m7(0).into_iter().step_by(11));
+            v.extend(gen::m8(0).into_iter().step_by(9));
             v.extend(gen::m2(0).into_iter().step_by(997));
         }
         Tier::Thorough => {
@@ -29,6 +30,7 @@ fn models(tier: Tier) -> Vec<Model> {
             v.extend(gen::m4(1).into_iter().step_by(7));
             v.extend(gen::m5(1).into_iter().step_by(2));
             v.extend(gen::m7(1).into_iter().step_by(2));
+            v.extend(gen::m8(1).into_iter().step_by(1));
             v.extend(gen::m2(1).into_iter().step_by(1999));
             v.extend(gen::m1(1).into_iter().step_by(401));
         }
